@@ -59,7 +59,7 @@ def rule_gate(program, ctx, prop=P, rid="C03.gate"):
         "every CFG path of each concrete add_event from entry to an admission effect "
         "(insert, enqueue, pre/post_save, broadcast, announce, normal return) passes "
         "`await self.validate_event(E, …)` with E = Event(**client json), E never re-bound",
-        floor=8,
+        floor=4,
     )
     for fn, classes in concrete_add_events(program):
         cfg = cfg_of(fn)
@@ -394,7 +394,7 @@ def rule_closed(program, ctx, prop=P, rid="C03.closed"):
         "who-may-call: event INSERT only in DBStorage.add_event; writer_queue.put(('add',…)) only in "
         "LMDBStorage.add_event; index.write only from the writer thread / Index.clear / bulk_update; "
         "notify_all_connected only from the add_event closure and NotifyClient.connect (event re-read from the store)",
-        floor=6,
+        floor=3,
     )
     owners = {
         "insert": {"DBStorage.add_event"},
@@ -451,8 +451,35 @@ def rule_closed(program, ctx, prop=P, rid="C03.closed"):
             ctx.info(rid, fn, f"{q.split(':')[1]} no longer calls add_event")
 
 
+def rule_stored(program, ctx):
+    rid = ctx.rule(
+        "C03.stored",
+        "what is stored is what was verified: the SQL INSERT's column values and the LMDB record's row are the validated event's own fields, "
+        "directly or through the reversible hex<->bytes codec - a transformation between validation and storage (stripping, normalising) makes "
+        "the stored event no longer hash to its id / verify",
+        floor=4,
+    )
+    from . import c04
+
+    c04.rule_insert_values(program, ctx, P, rid)
+    enc = program.func("nostr_relay.storage.kv:encode_event")
+    row = next((s.value for s in walk_no_nested(enc) if isinstance(s, ast.Assign) and isinstance(s.value, ast.Tuple)), None)
+    if row is None:
+        ctx.bad(finding_func(P, rid, enc, "encode_event no longer builds the record row", text="def encode_event(...)"))
+        return
+    import re as _re
+
+    for i, e in enumerate(row.elts[1:], 1):
+        src = ast.unparse(e)
+        if _re.fullmatch(r"(?:bytes\.fromhex\()?event\.(\w+?)\)?", src):
+            ctx.ok(rid, e, f"LMDB record[{i}] = {src}")
+        else:
+            ctx.bad(finding_at(P, rid, e, f"LMDB record[{i}] is `{src}`: not the validated event's own field through a reversible codec", text=str(i)))
+
+
 def run(program, ctx):
     rule_gate(program, ctx)
+    rule_stored(program, ctx)
     rule_chain(program, ctx)
     rule_defaults(program, ctx)
     rule_is_signed(program, ctx)
@@ -469,6 +496,8 @@ DB = "nostr_relay/storage/db.py"
 VAL = "nostr_relay/validators.py"
 
 MUTANTS = [
+    M("c03-stored-content-stripped", DB, "                                content=event.content,", "                                content=event.content.strip(),", "C03.stored"),
+    M("c03-stored-kv-lower", KV, "        event.content,\n        event.tags,", "        event.content.replace(\"\\x00\", \"\"),\n        event.tags,", "C03.stored"),
     M("c03-id-compare-dropped", VAL,
       "    if event.id != Event.compute_id(\n        event.pubkey, event.created_at, event.kind, event.tags, event.content\n    ):\n        raise StorageError(\"invalid: Bad id\")\n",
       "", "C03.id"),
